@@ -27,6 +27,8 @@ def contract(expression: Expression) -> Expression:
         and not expression.numerator.parents
         and not expression.denominator.parents
         and set(expression.denominator.children) < set(expression.numerator.children)
+        # both must be over the same population (and be the same kind of probability)
+        and expression.denominator == expression.numerator._new(expression.denominator.distribution)
     ):
         return expression
     children = set(expression.numerator.children).difference(expression.denominator.children)
